@@ -126,7 +126,7 @@ def rule_guards(ctx):
     fe = ctx.fn(f"{PRODUCER}._ensure_transactional")
     ce = ctx.cfg(fe)
     rs = [n for n in ce.nodes if n.kind == "raise"]
-    tests = [t for t in ce.nodes if t.kind == "test"]
+    tests = [t for t in ce.nodes if t.kind == "test" and not isinstance(t.ast, ast.Constant)]
     ok = len(rs) == 1 and "IllegalOperation" in unparse(rs[0].ast.exc) and {unparse(t.ast) for t in tests} == {"self._txn_manager is None", "self._txn_manager.transactional_id is None"} \
         and all(rs[0] in ce.reachable([m for m, l in t.succ if l == "T"], include_src=True) for t in tests)
     ctx.ob(R, fe, fe.node, ok, "_ensure_transactional does not raise IllegalOperation for a non-transactional producer", text="ensure-def")
